@@ -20,7 +20,7 @@ import c08_gen as GEN        # noqa: E402
 
 ID = "C08"
 DESIGN_REF = "DESIGN.md section 5, C08"
-LEAN_TARGETS = ["PV.C08.Thm", "PV.C08.ThmTok"]
+LEAN_TARGETS = ["PV.C08.Thm", "PV.C08.ThmTok", "PV.C08.AtAny"]
 DRIVER = "drv_c08"
 HARNESS = {"bin": "pvh_c08", "features": "default"}
 PAREN_THEOREMS = [
@@ -87,6 +87,24 @@ THEOREMS = [
     "PV.C08.layout_tree_invariant_tok",
     "PV.C08.layoutEq_tok_comment_example",
     "PV.C08.layoutEq_tok_bracket_example",
+    "PV.C08.lexNumber_any",
+    "PV.C08.lexOp_any",
+    "PV.C08.lexIdentifier_any",
+    "PV.C08.lexString_any",
+    "PV.C08.consumeCharacter_any",
+    "PV.C08.step_any_local",
+    "PV.C08.runs_any_extend",
+    "PV.C08.at_any_extend",
+    "PV.C08.LayoutStep''.toLayoutStep",
+    "PV.C08.LayoutEq''.toLayoutEq",
+    "PV.C08.LayoutStep'.toLayoutStep''",
+    "PV.C08.LayoutEq'.toLayoutEq''",
+    "PV.C08.lex_layout_invariant_any",
+    "PV.C08.lex_layout_invariant_runs_any",
+    "PV.C08.layout_tree_invariant_any",
+    "PV.C08.layoutEq_any_blanks_example",
+    "PV.C08.layoutEq_any_bracket_example",
+    "PV.C08.layoutEq_any_eof_example",
     "PV.C08.rule_eol_thm",
     "PV.C08.rule_blanks_thm",
     "PV.C08.rule_commentAfter_thm",
@@ -114,27 +132,25 @@ PARTIAL = [
     "from tokens to trees is proved on the REFERENCE parsers only (PV.Prog.parseProgram, PV.C11.parseRef); the LALRPOP "
     "automaton itself is not modelled — its agreement with the reference parsers is the PROG / C11 correspondence, and the real "
     "parser is judged directly by the layout differential",
-    "LayoutEq: the three rules at the start of a line (blank / comment-only line, blank tail, form feed) need the "
-    "lexer-position hypothesis Spec.At for the ORIGINAL text only (for the rewritten text it is derived: at_bol_extend, from the "
-    "look-ahead lemma step_brk_local). The four rules behind a token (blanks, comment after code, backslash join, bracket break): "
-    "LayoutEq' (AtTok.lean) has them with hypotheses on the ORIGINAL text only WHEN THE TEXT BEHIND THE PLACE STARTS WITH A LAYOUT "
-    "CHARACTER (blank, tab, form feed, #, backslash, CR, LF: trailing blanks / comments in front of the line end, blanks in front "
-    "of a comment or backslash, a join or bracket break in front of a blank) under explicit side conditions — pre does not end "
-    "with a blank (blanks), no LF directly behind a CR (bracket break), the place is not BehindComment (blanks, comment, join; a "
-    "comment swallows everything up to the line end: at_rewritten_not_derivable, lay_side_conditions_needed) — At for the rewritten "
-    "text is derived (at_tok_extend, from step_lay_local: no step looks beyond the first layout character and all layout characters "
-    "end the same tokens). STILL with At for the rewritten text as a hypothesis (LayoutEq only): the same four rules directly in "
-    "front of a token (`x+y` -> `x +y`, `f(a)` -> `f(⏎a)`) or at the very end of the text — needs the look-ahead lemma with an "
-    "arbitrary follower instead of a layout character on the original side (per sub-lexer: 'a token that ends in front of ANY "
-    "character ends in front of a layout character', the number lexer being the long part); blanks / comments behind a comment "
-    "(`x#c` + blank: tokens equal, but not through the splice argument); line ends (eol) and BOM are unconditional",
+    "LayoutEq: `At` (the lexer-position hypothesis) is needed for the ORIGINAL text only, for every place-dependent rule: "
+    "LayoutEq'' (AtAny.lean) has the three rules at the start of a line (derived: at_bol_extend, from step_brk_local) and the "
+    "four rules behind a token (blanks, comment after code, backslash join, bracket break) at EVERY place — in front of a token "
+    "(`x+y` ~ `x + y`, `f(a)` ~ `f(⏎a)`), in front of layout, at the end of the text, behind every token kind incl. numbers — "
+    "with explicit side conditions instead of At for the rewritten text: pre does not end with a blank (blanks: insert at the "
+    "front of a run), no LF directly behind a CR (bracket break), the place is not BehindComment (blanks, comment, join; "
+    "witnesses at_rewritten_not_derivable, lay_side_conditions_needed). Derived by at_any_extend from step_any_local ('a step "
+    "that ends inside y, whatever follows, gives the same result with a layout character behind y' — every arm incl. the number "
+    "lexer). LayoutEq' (AtTok.lean, places in front of a layout character) is a sub-relation (toLayoutEq''). Left out of "
+    "LayoutEq'' (in LayoutEq only, with At for the rewritten text as hypothesis): blanks / a further comment BEHIND A COMMENT "
+    "(`x#c` + blank: the tokens are equal but the comment step grows, so the splice argument does not apply); line ends (eol) "
+    "and BOM are unconditional",
     "re-indentation (lex_reindent_invariant): proved for texts related by PV.C08.Reindent — logical lines are read off the "
     "lexer's run on the ORIGINAL text, the new run of blanks of every line must be free of 'tab after space' (measure = some) "
     "and stand in the same compare_strict relation to EVERY open block of its own text as the old one (SimLevel; more than the "
     "lexer looks at: levels below the matching one are compared too); a line whose CR line end would fuse with an LF at the "
     "start of the next re-indented line is excluded",
     PAREN_MISSING,
-    "default build only (cfg.fullLexer = false); Unicode tables are parameters constrained by UpOk (and, for the LayoutEq' "
+    "default build only (cfg.fullLexer = false); Unicode tables are parameters constrained by UpOk (and, for the LayoutEq' / LayoutEq'' "
     "theorems, UpLay: no layout character is XID_Continue — true of the real tables and of the drivers' ASCII instantiation: "
     "asciiUp_lay)",
 ]
@@ -156,9 +172,9 @@ LEVEL_TEXT = ("Machine-checked Lean 4 theorems, for texts of every length. (1) L
               "real lexer on (original, variant) pairs on every run, and the real PARSER is judged directly: every "
               "CPython-validated layout variant (incl. re-indentation and redundant parentheses) of generated programs and of "
               "the CPython standard library must give the same acceptance and the same range-erased tree.")
-LEVEL_NOTE = ("Not proved: the LALRPOP automaton (reference parsers are tied to it by correspondence), At for the rewritten "
-              "text of the four rules behind a token when they act directly in front of a token or at the end of the text (derived, "
-              "under explicit side conditions, in front of a layout character; witness that the comment condition is needed), parenthesis positions listed as missing. "
+LEVEL_NOTE = ("Not proved: the LALRPOP automaton (reference parsers are tied to it by correspondence), blanks / comments inserted "
+              "BEHIND A COMMENT without At for the rewritten text (everywhere else it is derived under explicit side conditions: "
+              "LayoutEq''; witness that the comment condition is needed), parenthesis positions listed as missing. "
               "Trusted: Lean kernel, CPython 3.11.7 as judge of layout-only, the rewriter/generator/harness, the PROG and C11 "
               "correspondence for the reference parsers.")
 
